@@ -368,6 +368,8 @@ KeyText(id) == CASE id = "a" -> W(<<"a">>) [] id = "b" -> W(<<"b">>) [] id = "1"
                  [] id = "h" -> W(<<"h">>)                      \* by convention defined non-enumerable
                  [] id = "q" -> <<34, 10, 233>>                  \* key needing escapes:  " LF e-acute
                  [] id = "empty" -> <<>>
+                 [] id = "ls" -> <<55296>>                       \* an unpaired surrogate
+                 [] id = "fd" -> <<65533>>                       \* U+FFFD, what an unpaired surrogate decays to in a Go string
                  [] id = "toJSON" -> W(<<"t", "o", "J", "S", "O", "N">>)
                  [] id = "x" -> W(<<"x">>) [] id = "y" -> W(<<"y">>) [] id = "s" -> W(<<"s">>)
 KeyAttr(id) == IF id = "h" THEN "h" ELSE "e"
@@ -449,6 +451,8 @@ ListElems(id) ==
     [] id = "allow_nums" -> <<JNum(ZeroT), JNum(MZeroT), JNum(W(<<"1", ".", "5">>)), JNum(W(<<"1", "e", "+", "2", "1">>)), JStr(KeyText("1")), N1, JNum(NaNT)>>
     [] id = "allow_empty" -> <<>>
     [] id = "allow_h" -> <<JStr(KeyText("h")), JStr(KeyText("a"))>>
+    [] id = "allow_ls" -> <<JStr(KeyText("ls")), JStr(KeyText("ls"))>>          \* names are compared as code units
+    [] id = "allow_fdls" -> <<JStr(KeyText("fd")), JStr(KeyText("ls")), JStr(KeyText("a"))>>
     [] id = "allow_px" -> <<JStr(KeyText("b"))>>                               \* new Proxy(["b"], {}): IsArray sees through
 ListItem(v) == IF v.t = "str" THEN v.v
                ELSE IF v.t = "num" THEN (IF v.v = MZeroT THEN ZeroT ELSE v.v)       \* ToString(number)
@@ -629,6 +633,7 @@ LeafKinds == {"null", "true", "false", "n1", "n15", "nneg0", "nan", "inf", "ninf
               "tjnon", "tjfun", "big7", "args", "typed", "date0", "datenan", "cyc", "shared", "hole"}
 ContKinds == {"obj", "arr", "pxobj", "pxarr"}
 AllReps == {"none", "nonfn", "dropa", "num", "idx0", "wrap", "allow_ba", "allow_mixed", "allow_nums", "allow_empty", "allow_h", "allow_px"}
+SurrReps == {"none", "allow_ls", "allow_fdls", "dropa"}
 AllInds == {"none", "n2", "n11", "n0", "nneg", "n2_9", "ninf", "nan", "bnum3", "tab", "s16", "sempty", "bstr", "uni11", "uni1", "btrue"}
 ParsePlan(pieces, maxsteps, editchars, editon) ==
   [mode |-> "parse", pieces |-> pieces, maxsteps |-> maxsteps, editchars |-> editchars, editon |-> editon,
@@ -663,10 +668,12 @@ PlanProxy == StrPlan({"pxobj", "pxarr", "n1", "undef", "hole", "cyc"}, {"a", "1"
 \* own-key order (array indices first), "__proto__", non-enumerable and escaped keys x allow-lists
 PlanKeys == StrPlan({"obj", "n1"}, {"a", "b", "1", "10", "__proto__", "h"} \cup (IF Big THEN {"0", "9", "q", "empty"} ELSE {}), 4,
                     {"none", "allow_ba", "allow_h", "allow_mixed", "allow_nums"}, {"none", "n2"})
+\* keys that differ only in what a Go string can carry: an unpaired surrogate and U+FFFD, x allow-lists naming them
+PlanKeySurr == StrPlan({"obj", "n1"}, {"ls", "fd", "a"}, 4, SurrReps, {"none", "n2"})
 PlanOf(nm) == CASE nm = "struct" -> PlanStruct [] nm = "lex" -> PlanLex [] nm = "lexnum" -> PlanLexNum [] nm = "lexstr" -> PlanLexStr [] nm = "members" -> PlanMembers [] nm = "deep" -> PlanDeep
                 [] nm = "edits" -> PlanEdits [] nm = "editlex" -> PlanEditLex
                 [] nm = "shape" -> PlanShape [] nm = "leaves" -> PlanLeaves [] nm = "indent" -> PlanIndent [] nm = "proxy" -> PlanProxy
-                [] nm = "keys" -> PlanKeys [] nm = "none" -> NoPlan
+                [] nm = "keys" -> PlanKeys [] nm = "keysurr" -> PlanKeySurr [] nm = "none" -> NoPlan
 PL == PlanOf(plan)
 ModeOf(nm) == PlanOf(nm).mode
 Mode == PL.mode
